@@ -250,7 +250,8 @@ func compare(cfg *config.Config, m *conf.Model) (ds []diff, libEq, listEq int, d
 		}
 		chk := func(field string, obs []string, list []conf.Server, def int) {
 			want := conf.HostPorts(list, def)
-			if eqS(withPorts(obs, def), want) {
+			// host names are case-insensitive: a loader may keep or lower the case of a server name
+			if eqS(lowerAll(withPorts(obs, def)), lowerAll(want)) {
 				listEq++
 				return
 			}
@@ -262,7 +263,7 @@ func compare(cfg *config.Config, m *conf.Model) (ds []diff, libEq, listEq int, d
 		chk("master_kdc", o.MasterKDC, rl.Master, 88)
 		if len(rl.Kpasswd) > 0 {
 			chk("kpasswd_server", o.KPasswdServer, rl.Kpasswd, 464)
-		} else if want := rl.ExpectKpasswd(); len(o.KPasswdServer) == 0 || eqS(o.KPasswdServer, want) {
+		} else if want := rl.ExpectKpasswd(); len(o.KPasswdServer) == 0 || eqS(lowerAll(o.KPasswdServer), lowerAll(want)) {
 			listEq++
 		} else {
 			ds = append(ds, diff{"C16|realm|kpasswd-from-admin|" + conf.ListClass(rl.Admin), fmt.Sprintf("realm %s kpasswd default loaded as %q, documented %q", rl.Name, o.KPasswdServer, want),
@@ -454,7 +455,16 @@ func exactMap(n int, mp map[int]string, want []string) (bool, []string) {
 		}
 		vals = append(vals, v)
 	}
-	return ok && sameMultiset(vals, want), vals
+	// the same servers, whatever the letter case of their names (that the Config itself is left alone is checked separately)
+	return ok && sameMultiset(lowerAll(vals), lowerAll(want)), vals
+}
+
+func lowerAll(xs []string) []string {
+	out := make([]string, len(xs))
+	for i, x := range xs {
+		out[i] = strings.ToLower(x)
+	}
+	return out
 }
 
 func lookups(r *vh.Run, ck string, cfg *config.Config, m *conf.Model, text string, calls int) {
